@@ -16,7 +16,7 @@ TraceInit ==
   \E i \in Starts :
     /\ l0 = i /\ l = i + 1
     /\ scen = Trace[i]
-    /\ S = <<>> /\ resv = <<>> /\ D = <<>> /\ qi = <<>> /\ cyc = 0 /\ action = "" /\ doneActs = {}
+    /\ S = <<>> /\ resv = <<>> /\ D = <<>> /\ qi = <<>> /\ qe = <<>> /\ cyc = 0 /\ action = "" /\ doneActs = {}
     /\ failed = FALSE /\ hist = <<>> /\ panic = ""
 
 Ev == Trace[l]
@@ -27,25 +27,29 @@ EvictCount == Cardinality({i \in Dec : EvictOK(i)})
 
 TCycleStart ==
   /\ More /\ Ev.ev = "CycleStart"
-  /\ S' = Ev.pods /\ resv' = Ev.resv /\ D' = <<>> /\ qi' = <<>> /\ cyc' = Ev.c /\ action' = "" /\ doneActs' = {}
+  /\ S' = Ev.pods /\ resv' = Ev.resv /\ D' = <<>> /\ qi' = <<>> /\ qe' = <<>> /\ cyc' = Ev.c /\ action' = "" /\ doneActs' = {}
   /\ hist' = Append(hist, [canon |-> CanonOf(Ev.pods), ev |-> EvictCount])
   /\ UNCHANGED <<failed, panic>> /\ Step
 
 TQueueInfo ==
   /\ More /\ Ev.ev = "QueueInfo" /\ qi' = Ev
-  /\ UNCHANGED <<S, resv, D, cyc, action, doneActs, failed, hist, panic>> /\ Step
+  /\ UNCHANGED <<S, resv, D, qe, cyc, action, doneActs, failed, hist, panic>> /\ Step
+
+TSessionEnd ==
+  /\ More /\ Ev.ev = "SessionEnd" /\ qe' = Ev
+  /\ UNCHANGED <<S, resv, D, qi, cyc, action, doneActs, failed, hist, panic>> /\ Step
 
 TActionStart ==
   /\ More /\ Ev.ev = "ActionStart" /\ action' = Ev.name
-  /\ UNCHANGED <<S, resv, D, qi, cyc, doneActs, failed, hist, panic>> /\ Step
+  /\ UNCHANGED <<S, resv, D, qi, qe, cyc, doneActs, failed, hist, panic>> /\ Step
 
 TActionDone ==
   /\ More /\ Ev.ev = "ActionDone" /\ action' = "" /\ doneActs' = doneActs \cup {Ev.name}
-  /\ UNCHANGED <<S, resv, D, qi, cyc, failed, hist, panic>> /\ Step
+  /\ UNCHANGED <<S, resv, D, qi, qe, cyc, failed, hist, panic>> /\ Step
 
 Decide(rec) ==
   /\ D' = Append(D, rec) /\ failed' = (failed \/ rec.ok = 0)
-  /\ UNCHANGED <<S, resv, qi, cyc, action, doneActs, hist, panic>> /\ Step
+  /\ UNCHANGED <<S, resv, qi, qe, cyc, action, doneActs, hist, panic>> /\ Step
 
 TBind ==
   /\ More /\ Ev.ev = "Bind"
@@ -62,21 +66,21 @@ TPipeline ==
 
 TNoop ==
   /\ More /\ Ev.ev \in {"CommitBegin", "CommitEnd", "Env"}
-  /\ UNCHANGED <<S, resv, D, qi, cyc, action, doneActs, failed, hist, panic>> /\ Step
+  /\ UNCHANGED <<S, resv, D, qi, qe, cyc, action, doneActs, failed, hist, panic>> /\ Step
 
 TCycleEnd ==
   /\ More /\ Ev.ev = "CycleEnd" /\ action' = "end" /\ panic' = Ev.panic
-  /\ UNCHANGED <<S, resv, D, qi, cyc, doneActs, failed, hist>> /\ Step
+  /\ UNCHANGED <<S, resv, D, qi, qe, cyc, doneActs, failed, hist>> /\ Step
 
 TTimeout ==
   /\ More /\ Ev.ev = "Timeout" /\ panic' = "timeout"
-  /\ UNCHANGED <<S, resv, D, qi, cyc, action, doneActs, failed, hist>> /\ Step
+  /\ UNCHANGED <<S, resv, D, qi, qe, cyc, action, doneActs, failed, hist>> /\ Step
 
-TraceNext == TCycleStart \/ TQueueInfo \/ TActionStart \/ TActionDone \/ TBind \/ TEvict \/ TPipeline
+TraceNext == TCycleStart \/ TQueueInfo \/ TSessionEnd \/ TActionStart \/ TActionDone \/ TBind \/ TEvict \/ TPipeline
              \/ TNoop \/ TCycleEnd \/ TTimeout
 TraceSpec == TraceInit /\ [][TraceNext]_tvars
 
-Known == {"CycleStart", "QueueInfo", "ActionStart", "ActionDone", "Bind", "Evict", "Pipeline",
+Known == {"CycleStart", "QueueInfo", "SessionEnd", "ActionStart", "ActionDone", "Bind", "Evict", "Pipeline",
           "CommitBegin", "CommitEnd", "Env", "CycleEnd", "Timeout"}
 D_KnownEvent == More => Ev.ev \in Known
 D_Shape == Len(S) \in {0, Len(scen.pods)}
